@@ -115,6 +115,16 @@ def resolve_function(qualname: str) -> tuple[ModuleInfo, ast.FunctionDef, str]:
         seen.add(q)
         mod, rest = split_qualname(q)
         mi = load_module(mod)
+        if rest == "" and "." in mod:
+            # the dotted path names a module, but a package may re-export a function of the same name
+            # (rules_block/__init__ imports `table` the function from module `table`)
+            parent, leaf = mod.rsplit(".", 1)
+            pmi = load_module(parent)
+            if leaf in pmi.imports and pmi.imports[leaf] != mod:
+                q = pmi.imports[leaf]
+                continue
+            if leaf in mi.functions:
+                return mi, mi.functions[leaf], mod + "." + leaf
         if rest in mi.functions:
             return mi, mi.functions[rest], mod + "." + rest
         head = rest.split(".")[0]
